@@ -116,7 +116,8 @@ func genC04(p *pkgInfo, l *leanFile) {
 	if fd := p.funcs["expiresAt"]; fd != nil {
 		for _, s := range fd.Body.List {
 			if r, ok := s.(*ast.ReturnStmt); ok && len(r.Results) == 1 {
-				exp = exprStr(r.Results[0])
+				// (`1 * time.Second` and `time.Second` are one duration)
+				exp = strings.ReplaceAll(exprStr(r.Results[0]), "(1 * time.Second)", "(time.Second)")
 			}
 		}
 	}
